@@ -520,7 +520,7 @@ pub fn c06(a: &Args, rep: &mut Report) {
     rep.assumptions = vec!["the 3^d block is sufficient for the infinite replication: any image with |delta_k| > w_k is dominated by a nearer image of the same generator".into(), "tolerance model of DESIGN 5.3".into()];
     let thorough = a.tier == "thorough";
     let szs: Vec<usize> = if thorough { vec![1, 2, 3, 4, 5, 8, 13, 27, 50, 100, 200, 400] } else { vec![1, 2, 3, 4, 5, 8, 13, 27, 50, 100] };
-    let n = ncases(a, 1500, 20000);
+    let n = ncases(a, 5000, 30000);
     run_parallel(rep, n, budget(a, 100., 1200.), |k, rep| {
         let o = GenOpts {
             sizes: &szs,
